@@ -140,7 +140,7 @@ def spellings_of(v, rng):
     if not any(c in v for c in "'\"\n\r"):
         res.append(("raw_dq", 'r"' + v + '"'))
         res.append(("raw_sq", "r'" + v + "'"))
-    fb = esc_for('"', v, rng, 1).replace("{", "{{").replace("}", "}}")
+    fb = esc_for('"', v.replace("{", "{{").replace("}", "}}"), rng, 1)     # braces doubled first: escapes are decoded by the lexer, before interpolation parsing
     res.append(("fstr", 'f"' + fb + '"'))
     return res
 
@@ -166,7 +166,7 @@ QUIRKS = ['"\\q"', '"\\x4g"', '"\\x4"', '"\\xg1"', '"\\u{}"', '"\\u{110000}"', '
 
 # ---------------------------------------------------------------- numbers, dates
 
-def number_cases(rng, n):
+def number_cases(rng, n, rows=(("0b", 2, 32), ("0x", 16, 12), ("0o", 8, 12))):
     """(spelling, expected) with expected = ('int', v) | ('real', Fraction)"""
     out = []
 
@@ -189,11 +189,15 @@ def number_cases(rng, n):
         out.append((str(v), ("real", Fraction(v))))
     # based numbers
     for _ in range(max(6, n // 2)):
-        b, pfx, maxd, digs = rng.choice([(2, "0b", 32, "01"), (8, "0o", 12, "01234567"), (16, "0x", 12, "0123456789abcdefABCDEF")])
-        k = rng.randrange(1, maxd + 1)
+        pfx, b, maxd = rng.choice(list(rows))       # the digit caps come from the source (GenLiteral), the values from python
+        digs = {2: "01", 8: "01234567", 16: "0123456789abcdefABCDEF"}.get(b, "01")
+        k = rng.choice([rng.randrange(1, maxd + 1), maxd])
         ds = "".join(rng.choice(digs) for _ in range(k))
         out.append((pfx + ("_" if rng.random() < 0.3 else "") + ds, ("int", int(ds, b))))
-    out += [("0xffffffffffff", ("int", 0xffffffffffff)), ("0o777777777777", ("int", 0o777777777777)), ("0b" + "1" * 32, ("int", 2**32 - 1)), ("0x0", ("int", 0))]
+    for pfx, b, maxd in rows:
+        top = {2: "1", 8: "7", 16: "f"}.get(b, "1") * maxd
+        out.append((pfx + top, ("int", int(top, b))))
+    out += [("0x0", ("int", 0))]
     # floats exact in binary: k / 2^j written in decimal, optionally with an exponent
     for _ in range(n):
         j = rng.randrange(0, 7)
